@@ -174,6 +174,15 @@ class FaultHook(Hooks):
         kind = kinds[k - 1]
         self._stmt = stmt
         what = type(stmt).__name__
+        tbl = getattr(getattr(stmt, 'table', None), 'name', None)
+        if tbl is None:
+            try:
+                from engine.symdb import stmt_tables
+                tbl = '+'.join(sorted(stmt_tables(stmt)))
+            except Exception:
+                tbl = None
+        if tbl:
+            what = '%s(%s)' % (what, tbl)
         self.injected.append((i, kind, what))
         self._fault(session, kind, '%s #%d' % (what, i))
 
